@@ -143,6 +143,7 @@ fn run_sched(args: &[String]) -> i32 {
         "states": stats.states.len(),
         "distinct_outcomes": stats.outcomes.len(),
         "max_decisions": stats.max_decisions,
+        "divergences": stats.divergences,
         "noprogress_polls": noprogress_polls,
         "per_family": per_family.iter().map(|(k, v)| (k.clone(), json!({"configs": v.0, "execs": v.1, "capped": v.2}))).collect::<BTreeMap<_, _>>(),
         "deviation_bound_completed": max_bound_full,
@@ -250,7 +251,98 @@ fn run_pipe(args: &[String]) -> i32 {
         "configs_skipped_budget": skipped,
         "execs": stats.execs, "transitions": stats.transitions, "states": stats.states.len(),
         "distinct_outcomes": stats.outcomes.len(), "max_decisions": stats.max_decisions,
+        "divergences": stats.divergences,
         "details": {"writer_stacks": stacks.len(), "verdict_ok": verdicts[0], "verdict_failed": verdicts[1]},
+        "violations": violations, "samples": samples, "wall_s": t0.elapsed().as_secs_f64(),
+    });
+    std::fs::write(&out_path, serde_json::to_string_pretty(&res).unwrap()).unwrap();
+    0
+}
+
+#[cfg(feature = "tracing")]
+fn run_trace(args: &[String]) -> i32 {
+    use vcore::trace;
+    let prop = arg(args, "--prop").expect("--prop");
+    let tier_s = arg(args, "--tier").unwrap_or_else(|| "quick".into());
+    let tier = tier_of(&tier_s);
+    let shard = arg(args, "--shard").unwrap_or_else(|| "0/1".into());
+    let (si, sn) = shard.split_once('/').unwrap();
+    let (si, sn): (usize, usize) = (si.parse().unwrap(), sn.parse().unwrap());
+    let seed: usize = arg(args, "--seed").and_then(|s| s.parse().ok()).unwrap_or(0);
+    let out_path = arg(args, "--out").expect("--out");
+    let hb_path = arg(args, "--heartbeat");
+    let budget_s: f64 = arg(args, "--budget").and_then(|s| s.parse().ok()).unwrap_or(1e9);
+    let t0 = Instant::now();
+    let configs = trace::family(tier);
+    let mut stats = ExploreStats::default();
+    let mut violations: Vec<serde_json::Value> = Vec::new();
+    let mut samples: Vec<serde_json::Value> = Vec::new();
+    let (mut done, mut skipped, mut capped) = (0usize, 0usize, 0usize);
+    let mut logs_checked = 0usize;
+    let mut noprogress_polls = 0usize;
+    for (idx, cfg) in configs.iter().enumerate() {
+        if (idx + seed) % sn != si {
+            continue;
+        }
+        if t0.elapsed().as_secs_f64() > budget_s {
+            skipped += 1;
+            continue;
+        }
+        if let Some(hb) = &hb_path {
+            let _ = std::fs::write(hb, format!("trace {idx}\n{}", cfg.name));
+        }
+        let was = stats.capped;
+        stats.capped = false;
+        let mut found: Vec<String> = Vec::new();
+        exec::explore(cfg, &trace::subject, cfg.max_execs, &mut stats, &mut |tr| {
+            noprogress_polls += tr.noprogress_polls;
+            logs_checked += tr.log.iter().filter(|l| matches!(l.kind, vcore::hs::LogKind::Emit { .. })).count();
+            let mut vs = trace::check(cfg, tr);
+            // the scheduler oracles must hold as well (Log events are ignored by them)
+            vs.extend(oracles::check_all(cfg, tr).into_iter().filter(|v| v.prop == "C04" || v.prop == "C10"));
+            for v in vs {
+                if v.prop != "C20" && v.prop != "C04" && v.prop != "C10" {
+                    continue;
+                }
+                if !found.contains(&v.key) && violations.len() < 200 {
+                    found.push(v.key.clone());
+                    let sched = tr.schedule();
+                    let t2 = exec::execute(cfg, &trace::subject, &sched);
+                    // the runner's tracing collector iterates a `HashMap` (harmless reordering of
+                    // simultaneous span closes): the same schedule must fail the same way again
+                    let stable = trace::check(cfg, &t2).iter().any(|w| w.key == v.key)
+                        || oracles::check_all(cfg, &t2).iter().any(|w| w.key == v.key);
+                    violations.push(json!({
+                        "engine": "trace", "property": prop, "family": "trace", "index": idx, "tier": tier_s,
+                        "config": cfg.describe(), "schedule": sched,
+                        "key": v.key, "message": format!("[{}] {}", v.prop, v.msg),
+                        "finding": trace::explain(&v), "deterministic": stable,
+                        "trace": tr.render(),
+                    }));
+                }
+            }
+            if samples.len() < 2 && tr.decisions.len() >= 2 && cfg.plan.logs_before + cfg.plan.logs_after >= 2 {
+                samples.push(json!({
+                    "config": cfg.name, "schedule": tr.schedule(),
+                    "events": tr.events.iter().map(|e| e.ev.short()).collect::<Vec<_>>(),
+                }));
+            }
+            true
+        });
+        if stats.capped {
+            capped += 1;
+        }
+        stats.capped |= was;
+        done += 1;
+    }
+    let res = json!({
+        "property": prop, "tier": tier_s, "shard": shard,
+        "total_configs": configs.len(), "configs_done": done, "configs_capped": capped,
+        "configs_skipped_budget": skipped,
+        "execs": stats.execs, "transitions": stats.transitions, "states": stats.states.len(),
+        "distinct_outcomes": stats.outcomes.len(), "max_decisions": stats.max_decisions,
+        "divergences": stats.divergences,
+        "details": {"log_events_checked": logs_checked, "noprogress_polls": noprogress_polls, "quiescence_rule": "16 consecutive polls without a new event, gate change or user-code call"},
         "violations": violations, "samples": samples, "wall_s": t0.elapsed().as_secs_f64(),
     });
     std::fs::write(&out_path, serde_json::to_string_pretty(&res).unwrap()).unwrap();
@@ -280,6 +372,26 @@ fn run_replay(args: &[String]) -> i32 {
         }
         println!("reported failed: {:?} counters {:?}\n--- basic\n{}--- libtest\n{}", res.failed, res.counters, res.basic_out, res.libtest_out);
         let vs = pipe::check(cfg, stack, &tr, &res);
+        for v in &vs {
+            println!("violation {} [{}]: {}", v.prop, v.key, v.msg);
+        }
+        return i32::from(!vs.is_empty());
+    }
+    #[cfg(feature = "tracing")]
+    if engine == "trace" {
+        use vcore::trace;
+        let idx = j["index"].as_u64().unwrap() as usize;
+        let tier = tier_of(j["tier"].as_str().unwrap_or("quick"));
+        let sched: Vec<usize> =
+            j["schedule"].as_array().unwrap().iter().map(|x| x.as_u64().unwrap() as usize).collect();
+        let cfgs = trace::family(tier);
+        let cfg = &cfgs[idx];
+        println!("{}", cfg.describe());
+        let tr = exec::execute(cfg, &trace::subject, &sched);
+        for l in tr.render() {
+            println!("  {l}");
+        }
+        let vs = trace::check(cfg, &tr);
         for v in &vs {
             println!("violation {} [{}]: {}", v.prop, v.key, v.msg);
         }
@@ -324,6 +436,8 @@ fn main() {
     let code = match args.get(1).map(String::as_str) {
         Some("sched") => run_sched(&args),
         Some("pipe") => run_pipe(&args),
+        #[cfg(feature = "tracing")]
+        Some("trace") => run_trace(&args),
         Some("hist") => vcore::hist::run(&args),
         Some("replay") => run_replay(&args),
         Some("count") => {
